@@ -52,6 +52,11 @@ bool ops_archive(Ctx& c, const json& s, int idx, bool& handled) {
 					return {true, capped(drain(*st))}; }
 				if (call == "SeekBeyond") { auto st = v.OpenStream(i); long accepted = 0;       // absolute seeks far outside a member stream (values next to 2^64, where offset arithmetic wraps)
 					for (unsigned long long k : {0ull, 1ull, 7ull, 8ull, 59ull, 60ull, 200ull, 5000ull}) { bool ok = true; try { st->Seek(UINT64_MAX - k); } catch (const std::exception&) { ok = false; } if (ok || st->Position() > st->Length()) ++accepted; }
+					// ... and relative seeks that leave the member from a position inside it (the bound is the bytes LEFT, resp. the bytes BEHIND)
+					if (st->Length() >= 2) { const uint64_t len = st->Length();
+						for (uint64_t p : {uint64_t(1), len - 1}) { st->Seek(p);
+							for (uint64_t k : {len - p + 1, len}) { bool ok = true; try { st->SeekForward(k); } catch (const std::exception&) { ok = false; } if (ok || st->Position() != p) { ++accepted; st->Seek(p); } }
+							for (uint64_t k : {p + 1, len + 1}) { bool ok = true; try { st->SeekBackward(k); } catch (const std::exception&) { ok = false; } if (ok || st->Position() != p) { ++accepted; st->Seek(p); } } } }
 					return {true, accepted}; }
 				if (call == "Extract") { std::string d = ROOT + "/ex.bin"; fs::remove(d); v.ExtractFile(i, d); return {true, capped(Scen::slurp(d))}; }
 			} catch (const std::exception&) { return {false, 0}; } return {false, 0}; };
